@@ -31,6 +31,8 @@ var lexemes = map[string][2]string{
 var altLexemes = map[string]string{"IN": "not in", "BETWEEN": "not between", "CONTAINS": "not contains", "ICONTAINS": "not  icontains", "EQ": "!=", "LT": "<=", "GT": ">",
 	"BOOL": "FALSE", "NUMBER": "-2.5e3", "IDENT": "roles", "WS": "\t", "AND": "AND", "DATETIME": "datetime( 2020-01-02t03:04:05.5+01:00 )", "UNK": "$", "STRING": `"a\"b"`}
 
+var unkAlts = []string{"\u00a0", "\f", "\v", "\u2003", "\u0085", "\u3000", "~", "`", "\u200b", "\x00"}
+
 type silentListener struct {
 	*antlr.DefaultErrorListener
 	n int
@@ -151,6 +153,10 @@ func grammarMain(args []string) error {
 				}
 				// variant 2: literals that are tokens of the grammar but cannot be converted (every second NUMBER / DATETIME)
 				seen[k]++
+				if variant == 2 && k == "UNK" {
+					// characters the lexer does not know but a general-purpose "trim" or "is space" would: white space outside [ \n\t\r]
+					lx = unkAlts[(i+idx)%len(unkAlts)]
+				}
 				if variant == 2 && seen[k]%2 == 0 {
 					switch k {
 					case "NUMBER":
